@@ -380,6 +380,8 @@ def plan(tier, seed):
 	# worker BODIES interleaved at Python-line granularity (state shared between workers would show here)
 	for pair in range(3):
 		tasks.append(('t_bodies', dict(pair=pair, bound=2 if (tier != 'quick' and pair == 0) else 1)))
+	for ki in range(2):
+		tasks.append(('t_pool_bodies', dict(ki=ki, bound=1)))
 	return tasks
 
 
@@ -606,16 +608,122 @@ def t_bodies(pair, bound):
 	return sh
 
 
+def t_pool_bodies(ki, bound):
+	"""The callables that calc_file_signatures itself hands to its thread pool (captured by a ThreadPoolExecutor subclass that runs nothing) are
+	interleaved at Python-line granularity under pool semantics (3 files, 2 workers: the third body may start only when one of the first two has
+	finished; bodies start in submission order), <= `bound` preemptions.  Whatever the implementation shares between its own tasks - buffers
+	handed to several tasks, per-worker slots - is exercised in every such overlap, deterministically."""
+	from mc import sched, build
+	import gambit.sigs.calc as calc
+	from gambit.seq import SequenceFile
+	from gambit.sigs.calc import calc_file_signature
+	from gambit.sigs.base import SignatureList
+	import time as _time
+	sh = Shard()
+	src = os.path.realpath(build.SRC) + os.sep
+	ks = [fixtures.kspec(11, 'ATGAC'), fixtures.kspec(12, 'ATGAC')][ki]
+	with fixtures.workdir('c13p') as d:
+		seqs = [['GGATGACAAAAAAAAAAAAGGATGACCCCCCCCCCCCCAT'], ['CCATGACGGGGGGGGGGGGT'], ['TTATGACTTTTTTTTTTTTG']]
+		files = []
+		for i, contigs in enumerate(seqs):
+			p = os.path.join(d, f'p{i}.fa')
+			fixtures.write_fasta(p, contigs)
+			files.append(SequenceFile(p, 'fasta', None))
+		expected = [calc_file_signature(ks, f) for f in files]
+		n, w = len(files), 2
+
+		class CapturingPool(ThreadPoolExecutor):
+			def __init__(self, *a, **kw):
+				super().__init__(*a, **kw)
+				self.captured = []
+
+			def submit(self, fn, *a, **kw):
+				fut = Future()
+				self.captured.append((fn, a, kw, fut))
+				return fut
+		states = set()
+
+		def run(prefix):
+			pools = []
+
+			def make_pool(*a, **kw):
+				pools.append(CapturingPool(*a, **kw))
+				return pools[-1]
+			saved = calc.ThreadPoolExecutor
+			calc.ThreadPoolExecutor = type('ThreadPoolExecutor', (CapturingPool,), {})
+			made = []
+			orig_init = CapturingPool.__init__
+			box = {}
+
+			def main():
+				try:
+					box['res'] = calc.calc_file_signatures(ks, files, concurrency='threads', max_workers=w)
+				except BaseException as e:
+					box['exc'] = e
+			# find the pool instance through the class (the library creates it itself)
+			instances = []
+			cls = calc.ThreadPoolExecutor
+			cls.__init__ = lambda self, *a, **kw: (orig_init(self, *a, **kw), instances.append(self))[0]
+			th = threading.Thread(target=main, daemon=True)
+			th.start()
+			try:
+				t0 = _time.time()
+				while not instances or len(instances[0].captured) < n:
+					if 'exc' in box or _time.time() - t0 > TIMEOUT:
+						raise HarnessError(f'tasks were not handed to the pool: {box.get("exc")!r}')
+					_time.sleep(0.0002)
+				cap = instances[0].captured
+
+				def on_done(i, r):
+					fut = cap[i][3]
+					fut.set_running_or_notify_cancel()
+					if r[0] == 'ok':
+						fut.set_result(r[1])
+					else:
+						fut.set_exception(RuntimeError(r[1]))
+				il = sched.LineInterleaver([lambda c=c: c[0](*c[1], **c[2]) for c in cap], lambda fn: os.path.realpath(fn).startswith(src), max_active=w, on_done=on_done)
+				trace, results = il.run(prefix)
+				th.join(TIMEOUT)
+				if th.is_alive():
+					raise HarnessError('calc_file_signatures did not return after all its tasks completed')
+			finally:
+				calc.ThreadPoolExecutor = saved
+			return trace, box
+
+		for choices, trace, box in sched.explore(run, bound):
+			sh.evals += 1
+			sh.traces += 1
+			res = box.get('res')
+			ok = 'exc' not in box and isinstance(res, SignatureList) and len(res) == n and all(
+				isinstance(r, np.ndarray) and r.dtype == e.dtype and np.array_equal(r, e) for r, e in zip(res, expected))
+			if not ok:
+				sh.violation('pool-tasks-interfere', dict(mode='pool-bodies', n=n, order=[], workers=w, pre_completed=0, fault=None, faultkind=None, ki=ki, schedule=choices),
+				             [e.tolist() for e in expected], repr(box.get('exc')) if 'exc' in box else [np.asarray(r).tolist() for r in res])
+			if sched.preemptions(trace):
+				sh.nontrivial += 1
+			h = 0
+			for t in trace:
+				h = hash((h, t[2], t[0]))
+				states.add(h)
+		sh.states = len(states) + 1
+		sh.transitions = len(states)
+		sh.count('pool_body_interleavings', sh.evals)
+	sh.sample(dict(family='pool-bodies', kmerspec=repr(ks), files=n, workers=w, preemption_bound=bound, interleavings=sh.evals, trace_length=len(trace)))
+	return sh
+
+
 def violation_key(v):
 	# with >= 2 futures finished before as_completed() is entered, their yield order is the iteration order of a set of Future objects
 	# (memory addresses) - not owned by the harness; prefer counterexamples whose replay is deterministic
 	from mc.core import jdump
-	return (v['case'].get('pre_completed', 0) > 1, len(jdump(v['case'])))
+	# schedule-controlled counterexamples (line-level interleavings) replay deterministically; results of free-running threads may not
+	racy = v['kind'] in ('wrong-result', 'result-depends-on-earlier-calls') and v['case'].get('mode') in ('threads', 'history:threads', 'history:reused-thread-executor-2')
+	return (racy, v['case'].get('pre_completed', 0) > 1, v['kind'] not in ('pool-tasks-interfere', 'worker-bodies-interfere') and racy, len(jdump(v['case'])))
 
 
 def finalize(agg, tier):
 	for c in ('orders_differing_from_submission_order', 'last_submitted_finishes_first', 'runs_with_pre_completed_futures', 'faults_raised',
-	          'fault_completes_first', 'fault_completes_last', 'body_interleavings', 'valid_calls_after_a_failed_call', 'many_file_runs'):
+	          'fault_completes_first', 'fault_completes_last', 'body_interleavings', 'valid_calls_after_a_failed_call', 'many_file_runs', 'pool_body_interleavings'):
 		agg.require(c, 10)
 
 
@@ -623,6 +731,8 @@ def replay(case, kind=None):
 	from gambit.sigs.calc import calc_file_signature
 	sh = Shard()
 	ks = fixtures.kspec(11, 'ATGAC')
+	if case['mode'] == 'pool-bodies':
+		return [v for v in t_pool_bodies(case['ki'], 1).violations if v['case'].get('schedule') == case['schedule']][:1]
 	if case['mode'].startswith('history:'):
 		vs = t_histories(case['mode'].split(':', 1)[1], len(case['history'])).violations
 		return [v for v in vs if v['case'].get('history') == case['history'] and v['case'].get('k') == case.get('k')][:1]
